@@ -10,6 +10,7 @@ import EG.Driver.Util
 import EG.Model.CheckedTriangle
 import EG.Model.ThickTriangle
 import EG.Model.CheckedRRect
+import EG.Model.CheckedSector
 namespace EG.Driver
 open EG
 
@@ -192,6 +193,46 @@ private def rrPoints (r : RoundedRect) (n : Nat) : Option (List Pt) := do
   let c ← Chk.RRContains.new r
   rrPtsTake (n + (c.rowsEnd - c.rowsStart).toNat + 2) n c (Scanline.newEmpty 0) []
 
+/-! ### sectors and arcs -/
+
+private def opOfTag2 : Nat → PlaneOp
+  | 0 => .intersection
+  | 1 => .union
+  | _ => .entirePlane
+
+/-- `x y d start_mdeg sweep_mdeg tag lx ly rx ry`: the plane sector is what the real
+`PlaneSector::new(start, sweep)` returned (hook), see Driver/Sector.lean. -/
+private def readSector (t : Toks) : (Pt × Nat × PlaneSector) × Toks :=
+  let (tl, t) := t.pt
+  let (d, t) := t.nat
+  let (_start, t) := t.int
+  let (_sweep, t) := t.int
+  let (tag, t) := t.nat
+  let (l, t) := t.pt
+  let (r, t) := t.pt
+  ((tl, d, ⟨opOfTag2 tag, l, r⟩), t)
+
+private def fmtPs (ps : PlaneSector) : String :=
+  let tag := match ps.op with | .intersection => 0 | .union => 1 | .entirePlane => 2
+  s!"{tag},{ps.left.x},{ps.left.y},{ps.right.x},{ps.right.y}"
+
+private def parseOptColor2 (s : String) : Option Color := if s == "-" then none else some (parseNat s)
+private def alignOf2 : Nat → StrokeAlignment | 0 => .inside | 1 => .center | _ => .outside
+private def readStyle (t : Toks) : Style × Toks :=
+  let (f, t) := t.str
+  let (s, t) := t.str
+  let (w, t) := t.nat
+  let (a, t) := t.nat
+  (⟨parseOptColor2 f, parseOptColor2 s, w, alignOf2 a⟩, t)
+
+/-- `iter.take(n)` over a checked `next : σ → Option (Option (α × σ))`. -/
+private def takeChk {σ α : Type} (next : σ → Option (Option (α × σ))) : Nat → σ → List α → Option (List α)
+  | 0, _, acc => some acc.reverse
+  | n + 1, st, acc => do
+    match ← next st with
+    | none => pure acc.reverse
+    | some (a, st') => takeChk next n st' (a :: acc)
+
 private def readTri (t : Toks) : Triangle × Toks :=
   let (a, t) := t.pt; let (b, t) := t.pt; let (c, t) := t.pt
   (⟨a, b, c⟩, t)
@@ -222,6 +263,33 @@ def handleChk2 (kernel : String) (t : Toks) : Option String :=
   | "rrect.points" =>
     let (rr, t) := readRR t; let (n, _) := t.nat
     some (orPanic2 fmtPts (rrPoints rr n))
+  | "sector.contains" =>
+    let ((tl, d, ps), t) := readSector t; let (p, _) := t.pt
+    some (orPanic2 (fun b => s!"ps={fmtPs ps} r={fmtBool2 b}") (Chk.Sector.contains ⟨tl, d, ps⟩ p))
+  | "sector.offset" =>
+    let ((tl, d, ps), t) := readSector t; let (o, _) := t.int
+    some (orPanic2 (fun (s : Sector) => s!"{s.tl.x},{s.tl.y},{s.d}") (Chk.Sector.offset ⟨tl, d, ps⟩ o))
+  | "sector.points" =>
+    let ((tl, d, ps), t) := readSector t; let (n, _) := t.nat
+    some (orPanic2 (fun l => s!"ps={fmtPs ps} pts={fmtPts l}")
+      (do let it ← Chk.Sector.pointsIt ⟨tl, d, ps⟩; takeChk Chk.Sector.next n it []))
+  | "arc.points" =>
+    let ((tl, d, ps), t) := readSector t; let (n, _) := t.nat
+    some (orPanic2 (fun l => s!"ps={fmtPs ps} pts={fmtPts l}")
+      (do let it ← Chk.Arc.pointsIt ⟨tl, d, ps⟩; takeChk Chk.Arc.next n it []))
+  | "sector.styled" =>
+    let ((tl, d, ps), t) := readSector t
+    let (bk, t) := t.nat; let (bn, t) := t.pt
+    let (st, t) := readStyle t; let (n, _) := t.nat
+    let bevel : SectorBevel :=
+      if bk == 0 then none else some (if bk == 1 then BevelKind.interior else BevelKind.exterior, bn)
+    some (orPanic2 (fun l => s!"ps={fmtPs ps} bv={bk},{bn.x},{bn.y} px={fmtPix l}")
+      (do let it ← Chk.Sector.styledPixelsIt st ⟨tl, d, ps⟩ bevel; takeChk Chk.Sector.styledNext n it []))
+  | "arc.styled" =>
+    let ((tl, d, ps), t) := readSector t
+    let (st, t) := readStyle t; let (n, _) := t.nat
+    some (orPanic2 (fun l => s!"ps={fmtPs ps} px={fmtPix l}")
+      (do let it ← Chk.Arc.styledPixelsIt st ⟨tl, d, ps⟩; takeChk Chk.Arc.styledNext n it []))
   | _ => none
 
 end EG.Driver
